@@ -17,13 +17,24 @@ streaming writer x depth x gulp, with stale junk at the output path beforehand:
   * extract_bands / extract_chans with batch sizes 1, 2, 3, 5 and enough outputs for several batches: every output path is watched
     over the WHOLE call (also after it was closed): each state extends the previous one, header written once;
   * every byte-length truncation L >= |hdr| of the final file opens with FilReader, reports floor(8(L-|hdr|)/(nbits*nchans))
-    samples and read_block(0, that many) equals the first that many samples of the full read; truncations inside the header raise.
+    samples and read_block(0, that many) equals the first that many samples of the full read; truncations inside the header raise
+    (those cuts are outside the quantifier: they are checked but not counted as evaluations);
+  * complete on return: every call that returns normally leaves exactly the number of samples the call was asked for (counted
+    independently of the writer: range, decimation factor, dispersion delay), and no block of the read plan goes by without its
+    write -- the window runs to the end of the call (or to the next batch), not only to the last write;
+  * a truncated output carries the same header values as the full file, read_block(k-1, 1) is the k-th sample, read_block(0, k+1)
+    raises, read_plan over a cut at a whole sample delivers the same k samples; .tim outputs are also read back with
+    TimeSeries.from_tim and .spec outputs with FourierSeries.from_spec (k >= 1);
+  * inputs with an ascending band (foff > 0) and inputs spread over two files; extract_bands with chanstart > 0, extract_chans
+    with the default channel list, FilterbankBlock.to_file of a block that starts inside the file, FourierSeries.to_spec;
+  * coverage floor: every writer must have returned normally at least once with several blocks at every depth (else red).
 
 Correspondence: the executable model (at_crash / on_return / open_nsamples / read_block_file) under vm_compute on the same
 (stale content, header bytes, block bytes, truncation lengths) versus what the implementation left on disk / read back.
 
 At-scale search: scale(R) at the end of this file (blocks around 2**16 .. 2**24 elements at every depth, 1e5 .. 1.7e7 samples, gulps
 16384 / non-dividing / above 65536, 70000 blocks, 450 outputs in batches of 200, 4096 channels; same oracle with byte counts and crc32)."""
+import json
 import os
 import re
 import shutil
@@ -37,7 +48,10 @@ import vlib
 NCH = {1: 16, 2: 8, 4: 4, 8: 4, 16: 2, 32: 2}
 SITES = ["invert_freq", "apply_channel_mask", "downsample", "extract_samps", "requantize", "remove_zerodm", "subband",
          "extract_chans", "extract_bands", "to_file", "to_tim"]
-ONESHOT = {"to_file", "to_tim"}
+ONESHOT = {"to_file", "to_tim", "to_spec"}
+# (writer, depth) pairs whose every call dies with an exception in the library as it is (16-bit input: the numba kernels of the mask /
+# zero-DM / sub-band writers have no uint16 signature; findings.d/C20.md): no coverage floor there -- what they leave behind is still judged
+NO_FLOOR = {("apply_channel_mask", 16), ("remove_zerodm", 16), ("subband", 16)}
 JUNK = bytes([0xEE, 0x48, 0x45, 0x41]) * 300     # stale content at the output path: longer than any output written here
 
 
@@ -107,12 +121,16 @@ def raw_of(block, nbits):
 
 
 def run(R: vlib.Run):
+    from sigpyproc.fourierseries import FourierSeries
     from sigpyproc.io import sigproc
     from sigpyproc.readers import FilReader
+    from sigpyproc.timeseries import TimeSeries
     R.rule = ("synthetic inputs at depths 1,2,4,8,16,32 (a sample a whole number of bytes); the 9 streaming writers of base.py at gulps "
-              "{1,3,n-1,n,>n} plus FilterbankBlock.to_file and TimeSeries.to_tim; every writer with a range also on a sub-range with start > 0; stale bytes at every output path; every crash point "
+              "{1,3,n-1,n,>n} plus FilterbankBlock.to_file (also of a block that starts inside the file), TimeSeries.to_tim and FourierSeries.to_spec; every writer with a range also on a sub-range with start > 0; "
+              "at depth 8 also an ascending band (foff > 0) and an input spread over two files; extract_bands with chanstart > 0, extract_chans with the default channel list; "
+              "stale bytes at every output path; the sample count on return against the count asked for; every crash point "
               "(after each write/cwrite) and every byte-length truncation of the final file (all lengths 0..len for one gulp per "
-              "writer/depth, block boundaries +-1 for the others).  distinct = (writer, depth, gulp, params, output); non-trivial = "
+              "writer/depth, block boundaries +-1 for the others; cuts inside the header are checked to raise but not counted; .tim / .spec outputs also through from_tim / from_spec).  distinct = (writer, depth, gulp, params, output); non-trivial = "
               "more than one block written or a truncation sweep")
     R.trusted += ["Coq 8.16.1 kernel + vm_compute (examples, shape of the regenerated site descriptors)",
                   "tools/py2coq/gen_c20.py (ast -> per-site writer calls, file-object operations per writer method, reader arithmetic)",
@@ -120,7 +138,14 @@ def run(R: vlib.Run):
                   "Model/Stream.v (C02) for seek/counted read", "correspondence harness tools/harness/props/c20.py"]
     R.assume += ["io.FileIO is unbuffered and ndarray.tofile has flushed when it returns (observed by reading the path back after every call)",
                  "the header parser depends only on the header bytes (C05); per-byte unpacking is C03",
-                 "outputs of one call are distinct paths", "a sample is a whole number of bytes ((nchans*nbits) mod 8 = 0)"]
+                 "outputs of one call are distinct paths", "a sample is a whole number of bytes ((nchans*nbits) mod 8 = 0)",
+                 "one OUTPUT sample is a whole number of bytes too: the writers do not refuse a band / decimation / depth whose sample is not "
+                 "(e.g. 2-bit extract_bands with chanpersub=2, 1-bit downsample to 4 channels); there cwrite packs every block on its own, drops the "
+                 "bits of a block that do not fill a byte, and the output loses samples depending on the gulp (observation, not checked here)",
+                 "TimeSeries.from_tim and FourierSeries.from_spec are asked only for k >= 1 complete samples (on a header-only file both raise "
+                 "'Input data is empty'; zero-length results are outside the property, DESIGN 10), and from_spec only for a .spec file cut at a "
+                 "whole complex bin (it views the float32 stream as complex64 and refuses an odd number of floats)",
+                 "the expected sample count of a sub-banded output uses the library's own Header.get_dmdelays for the largest delay (the delays themselves are C09)"]
     R.prove("Props/C20.v")
     R.need(["Model/C20_Trace.vo"])
 
@@ -132,14 +157,27 @@ def run(R: vlib.Run):
     N = 7 if R.tier == "quick" else 11
     wcases, rcases = [], []          # correspondence cases: writer / reader
     swept = set()
+    alive = {}                       # (writer, depth) -> most blocks written by a call that returned normally
 
     def stale(paths):
         for p in paths:
             with open(p, "wb") as f:
                 f.write(JUNK)
 
-    def sweep(site, final, case, Ls=None):
-        """reader oracle on truncations of `final`; returns (hdrlen, nbits, nchans, [(L, k)], [(L, k, bytes)]) or None"""
+    HATTR = ("data_type", "nchans", "foff", "fch1", "nbits", "tsamp", "tstart", "nifs", "telescope", "backend", "source", "frame",
+             "ibeam", "nbeams", "dm", "period", "accel", "signed", "rawdatafile")
+
+    def hvals(hdr, sig=False):
+        """the header values of a reader, as a comparable string (no sample count, no path): the plain attributes; sig: also everything
+        the SIGPROC header carries (to_sigproc: coordinates, angles, ids -- slower, asked for the first and the last cut of a sweep)"""
+        v = {a: getattr(hdr, a) for a in HATTR}
+        if sig:
+            v["sigproc"] = hdr.to_sigproc()
+        return json.dumps(v, sort_keys=True, default=str)
+
+    def sweep(site, final, case, Ls=None, kind="fil"):
+        """reader oracle on truncations of `final`; returns (hdrlen, nbits, nchans, [(L, k)], [(L, k, bytes)]) or None.
+        kind: "fil" | "tim" (also read back with TimeSeries.from_tim) | "spec" (also with FourierSeries.from_spec)"""
         t = os.path.join(d, "trunc.fil")
         fp = os.path.join(d, "final_copy.fil")
         with open(fp, "wb") as f:
@@ -149,6 +187,7 @@ def run(R: vlib.Run):
             hdrlen = g.header.stream_info.entries[0].hdrlen
             nbits, nch, n = g.header.nbits, g.header.nchans, g.header.nsamples
             full = np.asarray(g.read_block(0, n).data) if n > 0 else np.zeros((nch, 0))
+            full_hvals = {False: hvals(g.header), True: hvals(g.header, sig=True)}
         except Exception as e:  # noqa: BLE001
             R.fail(f"{site}-final-unreadable", "the completed output cannot be re-read", dict(case, exc=f"{type(e).__name__}: {str(e)[:120]}"))
             return None
@@ -159,11 +198,17 @@ def run(R: vlib.Run):
             R.fail(f"{site}-final-nsamples", "sample count of the completed output is not floor(8*datalen/(nbits*nchans))",
                    dict(case, nsamples=n, datalen=len(final) - hdrlen))
         ks, reads = [], []
+        sig_done = False
         allL = range(0, len(final) + 1) if Ls is None else sorted(set(L for L in Ls if 0 <= L <= len(final)))
         for L in allL:
             with open(t, "wb") as f:
                 f.write(final[:L])
-            R.case(("trunc", site, case.get("nbits"), case.get("gulp"), case.get("out"), L), regime="truncation-in-header" if L < hdrlen else "truncation")
+            if L < hdrlen:
+                # a cut inside the header is outside the quantifier ("at or after the header"): still checked, not counted as an evaluation
+                R.tick(dict(case, L=L))
+                R.hist["truncation-in-header (checked, not counted)"] = R.hist.get("truncation-in-header (checked, not counted)", 0) + 1
+            else:
+                R.case(("trunc", site, case.get("nbits"), case.get("gulp"), case.get("out"), case.get("p"), L), regime="truncation")
             try:
                 g = FilReader(t)
             except Exception as e:  # noqa: BLE001
@@ -196,22 +241,83 @@ def run(R: vlib.Run):
                        dict(case, L=L, hdrlen=hdrlen, k=k, got=got.T.tolist()[:4], want=full[:, :k].T.tolist()[:4]))
                 continue
             reads.append((L, k, raw_of(blk, nbits)))
+            cc = dict(case, L=L, hdrlen=hdrlen, k=k)
+            # the same header values as the full file (not only depth and channel count)
+            sig = not sig_done or L == len(final)
+            sig_done = True
+            try:
+                hv = hvals(g.header, sig)
+            except Exception as e:  # noqa: BLE001
+                hv = f"{type(e).__name__}: {str(e)[:120]}"
+            if hv != full_hvals[sig]:
+                R.fail(f"{site}-truncation-header", "a truncated output opens with header values other than those of the full file",
+                       dict(cc, got=hv[:400], want=full_hvals[sig][:400]))
+            # the last complete sample on its own (a read that does not start at 0), and nothing beyond it
+            try:
+                one = np.asarray(g.read_block(k - 1, 1).data)
+                if one.shape != (nch, 1) or not np.array_equal(one, full[:, k - 1:k]):
+                    R.fail(f"{site}-truncation-data", "read_block(k-1, 1) on a truncated output is not the k-th sample of the full result",
+                           dict(cc, got=one.T.tolist(), want=full[:, k - 1:k].T.tolist()))
+            except Exception as e:  # noqa: BLE001
+                R.fail(f"{site}-truncation-unreadable", "read_block(k-1, 1) fails on a truncated output", dict(cc, exc=f"{type(e).__name__}: {str(e)[:120]}"))
+            try:
+                over = g.read_block(0, k + 1)
+                R.fail(f"{site}-truncation-overread", "a truncated output yields more than its k complete samples: read_block(0, k+1) returns",
+                       dict(cc, shape=list(np.asarray(over.data).shape)))
+            except Exception:  # noqa: BLE001  -- must raise
+                pass
+            if (8 * (L - hdrlen)) % (nbits * nch) == 0:
+                # cut at a whole sample: the streaming reader delivers the same k samples, block by block
+                try:
+                    parts = [np.array(dd).reshape(ns, nch) for ns, _ii, dd in g.read_plan(gulp=3, quiet=True)]
+                    allp = np.concatenate(parts) if parts else np.zeros((0, nch))
+                    if allp.shape != (k, nch) or not np.array_equal(allp, full[:, :k].T):
+                        R.fail(f"{site}-truncation-data", "read_plan over a truncated output does not deliver the first k samples of the full result",
+                               dict(cc, delivered=int(allp.shape[0]), blocks=[int(q.shape[0]) for q in parts][:8]))
+                except Exception as e:  # noqa: BLE001
+                    R.fail(f"{site}-truncation-unreadable", "read_plan fails on a truncated output", dict(cc, exc=f"{type(e).__name__}: {str(e)[:120]}"))
+            # the reader the library offers for this kind of file
+            if kind == "tim":
+                try:
+                    ts = TimeSeries.from_tim(t)
+                    if ts.data.shape != (k,) or int(ts.header.nsamples) != k or not np.array_equal(np.asarray(ts.data), full[0, :k]):
+                        R.fail(f"{site}-truncation-from_tim", "TimeSeries.from_tim on a truncated .tim output is not the first k samples of the full result",
+                               dict(cc, size=int(ts.data.size), nsamples=int(ts.header.nsamples)))
+                except Exception as e:  # noqa: BLE001
+                    R.fail(f"{site}-truncation-from_tim", "TimeSeries.from_tim fails on a truncated .tim output with k >= 1 samples",
+                           dict(cc, exc=f"{type(e).__name__}: {str(e)[:120]}"))
+            elif kind == "spec" and (L - hdrlen) % 8 == 0:
+                # (from_spec views the floats as complex64 and refuses an odd number of them: only cuts at a whole complex bin)
+                try:
+                    fs = FourierSeries.from_spec(t)
+                    ref = np.ascontiguousarray(full[0, :k]).astype(np.float32).view(np.complex64)
+                    if fs.data.shape != ref.shape or not np.array_equal(np.asarray(fs.data), ref):
+                        R.fail(f"{site}-truncation-from_spec", "FourierSeries.from_spec on a truncated .spec output is not the first bins of the full result",
+                               dict(cc, size=int(fs.data.size), want=int(ref.size)))
+                except Exception as e:  # noqa: BLE001
+                    R.fail(f"{site}-truncation-from_spec", "FourierSeries.from_spec fails on a .spec output cut at a whole complex bin",
+                           dict(cc, exc=f"{type(e).__name__}: {str(e)[:120]}"))
         return hdrlen, nbits, nch, ks, reads
 
-    def judge(site, case, ev, outs, exc, full_sweep):
-        """oracle on one call.  outs: output paths; ev: event log; exc: exception text or None"""
+    def judge(site, case, ev, outs, exc, full_sweep, want=None):
+        """oracle on one call.  outs: output paths; ev: event log; exc: exception text or None; want: the number of samples every
+        output must hold when the call returns normally (counted from the request, independently of the writer), or None"""
         for oi, o in enumerate(outs):
             c = dict(case, out=os.path.basename(o))
             idx = [i for i, e in enumerate(ev) if e[0] in "WC" and e[1] == o]
             if not idx:
                 if exc is None:
                     R.fail(f"{site}-no-output", "the call returned but nothing was written to the output path", c)
+                else:
+                    R.case(("died-before-write", site, case["nbits"], case.get("gulp"), case.get("p"), oi), nontrivial=False, regime="died-before-any-write:" + site)
                 continue
             evs = [ev[i] for i in idx]
             kinds = "".join(e[0] for e in evs)
             key = (site, case["nbits"], case.get("gulp"), case.get("p"), oi)   # p carries the batch size
             R.case(key, nontrivial=len(evs) > 2 or full_sweep, regime=("died:" if exc else "") + site,
                    sample=dict(c, events=kinds, sizes=[len(e[3]) for e in evs]) if case.get("gulp") == 3 and case["nbits"] == 8 and oi == 0 else None)
+            if exc is None:
+                alive[(site, case["nbits"])] = max(alive.get((site, case["nbits"]), 0), kinds.count("C"))
             with open(o, "rb") as f:
                 final = f.read()
             # over the WHOLE call (also across a close and a later re-open of the same path): every observed state of the
@@ -257,7 +363,12 @@ def run(R: vlib.Run):
                 continue
             # one block per gulp, in loop order
             lo, hi = idx[0], idx[-1]
-            pat = "".join("Y" if e[0] == "Y" else ("C" if e[1] == o else "") for e in ev[lo + 1:hi + 1])
+            end = hi + 1
+            if exc is None:
+                # the call returned: the window runs to the end of the call, or to the header write that starts the next batch --
+                # a block of the plan that goes by AFTER the last write to this output is a block that never reached it
+                end = next((i for i in range(hi + 1, len(ev)) if ev[i][0] == "W"), len(ev))
+            pat = "".join("Y" if e[0] == "Y" else ("C" if e[1] == o else "") for e in ev[lo + 1:end])
             okpat = (pat in ("C", "")) if site in ONESHOT else re.fullmatch(r"(YC)*", pat) is not None
             if not okpat:
                 R.fail(f"{site}-not-one-block-per-gulp", "blocks do not reach the output one per block of the read plan, in order",
@@ -283,6 +394,13 @@ def run(R: vlib.Run):
                        "the file on disk differs from what was there after the last write",
                        dict(c, final_len=len(final), last_len=len(evs[-1][3]), same_prefix=final[:len(h)] == h))
                 continue
+            # complete on return: the file holds the number of samples that was asked for, whole
+            if exc is None and want is not None and (ph["nbits"] * ph["nchans"]) % 8 == 0:
+                dbits = 8 * (len(final) - len(h))
+                spb = ph["nbits"] * ph["nchans"]
+                if dbits != want * spb:
+                    R.fail(f"{site}-incomplete-on-return", "the call returned normally but the file does not hold exactly the samples that were asked for",
+                           dict(c, samples_on_disk=dbits // spb, leftover_bits=dbits % spb, samples_expected=want, events=kinds))
             # reader: truncations
             if full_sweep:
                 Ls = None
@@ -291,22 +409,28 @@ def run(R: vlib.Run):
                 for e in evs:
                     Ls |= {len(e[3]) - 1, len(e[3]), len(e[3]) + 1}
                 Ls |= {0, len(h) - 1, len(final)}
-            sw = sweep(site, final, c, Ls)
+            sw = sweep(site, final, c, Ls, kind="tim" if o.endswith(".tim") else "spec" if o.endswith(".spec") else "fil")
             if sw is None:
                 continue
             hdrlen, nbits, nch, ks, reads = sw
             if hdrlen != len(h):
                 R.fail(f"{site}-header-not-first", "header length seen by the reader differs from what prep_outfile wrote", dict(c, hdrlen=hdrlen, wrote=len(h)))
-            if full_sweep and len(wcases) < 160:
+            if full_sweep and len(wcases) < 160 and site != "to_spec":      # (to_spec has no site descriptor in Gen/C20Sites.v)
                 wcases.append((site, list(JUNK[:len(final) + 5]), list(h), [list(b) for b in blocks], [list(e[3]) for e in evs], list(final), exc is None))
                 pick = reads if len(reads) <= 6 else [reads[i] for i in sorted(set([0, 1, len(reads) // 2, len(reads) - 2, len(reads) - 1]))]
                 rcases.append((list(h), list(final[hdrlen:]), nbits, nch, ks, [(L, k, list(b)) for L, k, b in pick]))
 
     try:
-        for nbits in (8, 1, 2, 4, 16, 32):
+        # variants of the input (depth 8): a band in ascending order (foff > 0), and the same samples spread over two files
+        for nbits, variant in [(nb, "") for nb in (8, 1, 2, 4, 16, 32)] + [(8, "ascending"), (8, "two-file")]:
             nch = NCH[nbits]
             x = nprng.integers(0, 1 << min(nbits, 8), (N, nch))
-            inp = filutil.write_fil(os.path.join(d, f"in{nbits}.fil"), x, nbits, fch1=400.0, foff=-80.0 / nch, tsamp=0.001)
+            if variant == "ascending":
+                inp = filutil.write_fil(os.path.join(d, "in8asc.fil"), x, nbits, fch1=320.0, foff=80.0 / nch, tsamp=0.001)
+            elif variant == "two-file":
+                inp = filutil.write_fil_set(os.path.join(d, "in8two"), x, nbits, [N // 2 + 1], tsamp=0.001, fch1=400.0, foff=-80.0 / nch)
+            else:
+                inp = filutil.write_fil(os.path.join(d, f"in{nbits}.fil"), x, nbits, fch1=400.0, foff=-80.0 / nch, tsamp=0.001)
             base = os.path.join(d, "o")
             o1 = os.path.join(d, "o.fil")
             half = nch // 2
@@ -315,50 +439,79 @@ def run(R: vlib.Run):
             SUB = (2, N - 3)            # sub-range: samples 2 .. N-2
             if R.tier != "quick":
                 gulps = sorted(set(gulps + [2, 4, 5, rng.randrange(1, N + 5)]))
+            elif variant:
+                gulps = [1, 3, N + 3]
+            # a band of `sel` channels (a whole number of bytes per sample) that does not start at channel 0
+            sel = max(2, 8 // nbits)
+            cs = 1 if nbits >= 8 else nch - sel
 
             def calls(fil, gulp):
+                """(writer, parameters, output paths, call, samples every output must hold on return)"""
                 kw = dict(gulp=gulp, quiet=True)
+                # the count of samples asked for, from the request alone: range; decimation (the gulp is rounded up to a multiple of
+                # tfactor and every block yields floor(block / tfactor)); sub-banding loses the largest dispersion delay
+                def ds(n, tf):
+                    g2 = -(-gulp // tf) * tf
+                    return (n // g2) * (g2 // tf) + (n % g2) // tf
+                dl = fil.header.get_dmdelays(0.25)
+                md = int(dl.max()) - min(0, int(dl.min()))
                 out = [
-                    ("invert_freq", "", [o1], lambda: fil.invert_freq(o1, **kw)),
-                    ("apply_channel_mask", "", [o1], lambda: fil.apply_channel_mask(mask, 0, o1, **kw)),
-                    ("downsample", "t2", [o1], lambda: fil.downsample(2, 1, o1, **kw)),
-                    ("extract_samps", "1:N-2", [o1], lambda: fil.extract_samps(1, N - 2, o1, **kw)),
-                    ("requantize", "8", [o1], lambda: fil.requantize(8, o1, **kw)),
-                    ("remove_zerodm", "", [o1], lambda: fil.remove_zerodm(o1, **kw)),
-                    ("subband", "dm0.25", [o1], lambda: fil.subband(0.25, 2, o1, **kw)),
+                    ("invert_freq", "", [o1], lambda: fil.invert_freq(o1, **kw), N),
+                    ("apply_channel_mask", "", [o1], lambda: fil.apply_channel_mask(mask, 0, o1, **kw), N),
+                    ("downsample", "t2", [o1], lambda: fil.downsample(2, 1, o1, **kw), ds(N, 2)),
+                    ("extract_samps", "1:N-2", [o1], lambda: fil.extract_samps(1, N - 2, o1, **kw), N - 2),
+                    ("requantize", "8", [o1], lambda: fil.requantize(8, o1, **kw), N),
+                    ("remove_zerodm", "", [o1], lambda: fil.remove_zerodm(o1, **kw), N),
+                    ("subband", "dm0.25", [o1], lambda: fil.subband(0.25, 2, o1, **kw), N - md),
                     ("extract_chans", "0,last;batch1", [f"{base}_chan{0:04d}.tim", f"{base}_chan{nch - 1:04d}.tim"],
-                     lambda: fil.extract_chans([0, nch - 1], base, batch_size=1, **kw)),
+                     lambda: fil.extract_chans([0, nch - 1], base, batch_size=1, **kw), N),
                     ("extract_bands", "2 bands", [f"{base}_sub00.fil", f"{base}_sub01.fil"] if half * nbits % 8 == 0 and half > 1 else [f"{base}_sub00.fil"],
-                     (lambda: fil.extract_bands(0, nch, half, base, **kw)) if half * nbits % 8 == 0 and half > 1 else (lambda: fil.extract_bands(0, nch, nch, base, **kw))),
+                     (lambda: fil.extract_bands(0, nch, half, base, **kw)) if half * nbits % 8 == 0 and half > 1 else (lambda: fil.extract_bands(0, nch, nch, base, **kw)), N),
                 ]
                 # the same writers on a SUB-RANGE strictly inside the file (start > 0, end < N)
                 s0, m = SUB
                 kr = dict(kw, start=s0, nsamps=m)
                 out += [] if R.tier == "quick" and gulp not in (1, 3, N + 3) else [
-                    ("invert_freq", f"sub{s0}+{m}", [o1], lambda: fil.invert_freq(o1, **kr)),
-                    ("apply_channel_mask", f"sub{s0}+{m}", [o1], lambda: fil.apply_channel_mask(mask, 0, o1, **kr)),
-                    ("downsample", f"t2;sub{s0}+{m}", [o1], lambda: fil.downsample(2, 1, o1, **kr)),
-                    ("requantize", f"8;sub{s0}+{m}", [o1], lambda: fil.requantize(8, o1, **kr)),
-                    ("remove_zerodm", f"sub{s0}+{m}", [o1], lambda: fil.remove_zerodm(o1, **kr)),
-                    ("subband", f"dm0.25;sub{s0}+{m}", [o1], lambda: fil.subband(0.25, 2, o1, **kr)),
+                    ("invert_freq", f"sub{s0}+{m}", [o1], lambda: fil.invert_freq(o1, **kr), m),
+                    ("apply_channel_mask", f"sub{s0}+{m}", [o1], lambda: fil.apply_channel_mask(mask, 0, o1, **kr), m),
+                    ("downsample", f"t2;sub{s0}+{m}", [o1], lambda: fil.downsample(2, 1, o1, **kr), ds(m, 2)),
+                    ("requantize", f"8;sub{s0}+{m}", [o1], lambda: fil.requantize(8, o1, **kr), m),
+                    ("remove_zerodm", f"sub{s0}+{m}", [o1], lambda: fil.remove_zerodm(o1, **kr), m),
+                    ("subband", f"dm0.25;sub{s0}+{m}", [o1], lambda: fil.subband(0.25, 2, o1, **kr), m - md),
                     ("extract_chans", f"0,last;batch1;sub{s0}+{m}", [f"{base}_chan{0:04d}.tim", f"{base}_chan{nch - 1:04d}.tim"],
-                     lambda: fil.extract_chans([0, nch - 1], base, batch_size=1, **kr)),
-                    ("extract_bands", f"1 band;sub{s0}+{m}", [f"{base}_sub00.fil"], lambda: fil.extract_bands(0, nch, nch, base, **kr)),
+                     lambda: fil.extract_chans([0, nch - 1], base, batch_size=1, **kr), m),
+                    ("extract_bands", f"1 band;sub{s0}+{m}", [f"{base}_sub00.fil"], lambda: fil.extract_bands(0, nch, nch, base, **kr), m),
                 ]
                 if gulp == 3:
+                    otim, ospec = os.path.join(d, "o.tim"), os.path.join(d, "o.spec")
                     out += [
-                        ("downsample", "f2", [o1], lambda: fil.downsample(1, 2, o1, **kw)),
-                        ("requantize", "2", [o1], lambda: fil.requantize(2, o1, **kw)),
-                        ("requantize", "32", [o1], lambda: fil.requantize(32, o1, **kw)),
-                        ("extract_samps", "sub", [o1], lambda: fil.extract_samps(2, 3, o1, **kw)),
-                        ("to_file", "", [o1], lambda: fil.read_block(0, N).to_file(o1)),
-                        ("to_tim", "", [os.path.join(d, "o.tim")], lambda: fil.read_chan(0, quiet=True).to_tim(os.path.join(d, "o.tim"))),
+                        ("downsample", "f2", [o1], lambda: fil.downsample(1, 2, o1, **kw), N),
+                        ("requantize", "2", [o1], lambda: fil.requantize(2, o1, **kw), N),
+                        ("requantize", "32", [o1], lambda: fil.requantize(32, o1, **kw), N),
+                        ("extract_samps", "sub", [o1], lambda: fil.extract_samps(2, 3, o1, **kw), 3),
+                        ("to_file", "", [o1], lambda: fil.read_block(0, N).to_file(o1), N),
+                        ("to_tim", "", [otim], lambda: fil.read_chan(0, quiet=True).to_tim(otim), N),
+                        # a block that starts inside the file; the channel list left to its default (every channel, default batch size)
+                        ("to_file", f"blk{s0}+{m}", [o1], lambda: fil.read_block(s0, m).to_file(o1), m),
+                        ("extract_chans", "all;default-batch", [f"{base}_chan{c_:04d}.tim" for c_ in range(nch)],
+                         lambda: fil.extract_chans(outfile_base=base, **kw), N),
                     ]
+                    if cs >= 1 and cs + sel <= nch:
+                        out.append(("extract_bands", f"chanstart{cs};{sel} of {nch}", [f"{base}_sub00.fil"], lambda: fil.extract_bands(cs, sel, sel, base, **kw), N))
+                    # FourierSeries.to_spec: the same prep_outfile + cwrite shape as to_tim (oracle only: it has no site descriptor in the proof)
+                    try:
+                        fser = fil.read_chan(0, quiet=True).rfft()
+                        out.append(("to_spec", "", [ospec], lambda: fser.to_spec(ospec), 2 * int(fser.data.size)))
+                    except Exception:  # noqa: BLE001  -- no spectrum to write: the coverage floor below reports the missing writer
+                        pass
                 return out
 
             for gulp in gulps:
                 fil = FilReader(inp)
-                for site, p, outs, fn in calls(fil, gulp):
+                for site, p, outs, fn, want in calls(fil, gulp):
+                    extra = p.startswith(("blk", "all;", "chanstart"))
+                    if variant:
+                        p = f"{variant};{p}"
                     case = {"site": site, "nbits": nbits, "nchans": nch, "N": N, "gulp": gulp, "p": p}
                     stale(outs)
                     exc = None
@@ -372,9 +525,11 @@ def run(R: vlib.Run):
                     full_sweep = (gulp == 3 and fs_key not in swept) or R.tier != "quick" and gulp in (1, N)
                     if "sub" in p and site != "extract_samps" and nbits != 8:
                         full_sweep = False      # the reader sweep does not depend on the range: one depth is enough for the sub-range variants
+                    if variant or p.startswith("all;") or extra and nbits != 8:
+                        full_sweep = False      # nor on the band order / the number of input files / the channel selection: cuts at the block boundaries +-1
                     if gulp == 3:
                         swept.add(fs_key)
-                    judge(site, case, ev, outs, exc, full_sweep)
+                    judge(site, case, ev, outs, exc, full_sweep, want)
                     for o in outs:
                         try:
                             os.remove(o)
@@ -411,13 +566,23 @@ def run(R: vlib.Run):
                         touched = sorted(set(e[1] for e in ev if e[0] in "WC") - set(outs))
                         if touched:
                             R.fail(f"{site}-no-output", "a path that is not one of the outputs was written", dict(case, paths=[os.path.basename(t) for t in touched]))
-                        judge(site, case, ev, outs, exc, full_sweep=(bsz == 2 and gulp == 3 and nbits == 8))
+                        judge(site, case, ev, outs, exc, full_sweep=(bsz == 2 and gulp == 3 and nbits == 8), want=N)
                         for o in outs:
                             try:
                                 os.remove(o)
                             except OSError:
                                 pass
                     del fil
+
+        # ---- coverage floor: the broad `except` around every call must not be able to hide a writer ------------------------------
+        # every writer has to have RETURNED NORMALLY at least once at every depth, with several blocks (one for the one-shot writers)
+        for site in SITES + ["to_spec"]:
+            for nb in (8, 1, 2, 4, 16, 32):
+                need = 1 if site in ONESHOT else 2
+                if (site, nb) not in NO_FLOOR and alive.get((site, nb), 0) < need:
+                    R.red.append(f"coverage: {site} at {nb} bits: no call returned normally with at least {need} block(s) written "
+                                 f"(most: {alive.get((site, nb), 0)}) -- every call died, so nothing between its writes was observed")
+        R.extra_cov["blocks_written_by_a_returning_call"] = {f"{s_}@{nb}": v for (s_, nb), v in sorted(alive.items())}
 
         # ---- correspondence: the executable model on the same inputs ------------------------------------------------
         head = ["From Coq Require Import ZArith List Bool.", "Require Import SPP.Base.Rt SPP.Gen.C20Sites SPP.Model.Stream SPP.Model.C20_Trace.",
